@@ -120,6 +120,11 @@ def make_rewrites(summary=None):
             # identity wrappers
             if name in IDENT and len(t[2]) >= 1:
                 return t[2][0]
+            # DataFrame(data=list(rows)) == DataFrame(data=rows): the rows are consumed once either way
+            if name == "pandas.DataFrame":
+                d_ = kw.get("data")
+                if d_ is not None and head(strip(d_)) == "call" and strip(strip(d_)[1]) in (("glob", "builtins.list"), ("glob", "builtins.tuple")) and len(strip(d_)[2]) == 1:
+                    return ("call", t[1], t[2], tuple((k, (strip(d_)[2][0] if k == "data" else v)) for k, v in t[3]))
             # X.apply(row serializer, axis=1)  ->  ROWSER(X, SEP)
             if head(f) == "attr" and f[2] == "apply" and len(t[2]) == 1 and is_const(kw.get("axis"), 1) and len(kw) == 1:
                 sep = is_row_serializer(t[2][0], getattr(summary, "real", None))
